@@ -28,7 +28,9 @@ Definition acct := N.
 Definition name := N.
 Definition txid := N.
 
-Record txinfo := { x_name : name ; x_lock : option Z ; x_redeem : option Z }.
+(* x_ext: the external (Ethereum) transaction the byte string carries — what it decodes to; two
+   byte strings that are encodings / padded copies of one transaction have the same x_ext *)
+Record txinfo := { x_name : name ; x_ext : N ; x_lock : option Z ; x_redeem : option Z }.
 
 Record env := {
   e_wits : list acct ;      (* registered Ethereum witnesses, store iteration order *)
@@ -347,6 +349,18 @@ Definition valid (E : env) (o : op) : bool :=
 (* one delivered transaction / one block end: a transaction that does not validate has no effect *)
 Definition vstep (E : env) (s : state) (o : op) : state * out :=
   if valid E o then step E s o else (s, Fail).
+
+(* the handlers accept the byte string as a lock or as a redeem *)
+Definition accepted (E : env) (x : txid) : Prop :=
+  x_lock (e_tx E x) <> None \/ x_redeem (e_tx E x) <> None.
+
+(* What strict decoding gives (rlp.DecodeBytes in DecodeTransaction: canonical RLP, nothing before or
+   after): two ACCEPTED byte strings that carry the same external transaction are the same bytes,
+   hence have the same tracker name.  An oracle hypothesis; the generators submit padded,
+   re-prefixed and wrapped copies of every kind to test that the code refuses them. *)
+Definition ext_canonical (E : env) : Prop :=
+  forall x x', accepted E x -> accepted E x' ->
+    x_ext (e_tx E x) = x_ext (e_tx E x') -> x_name (e_tx E x) = x_name (e_tx E x').
 
 (* two operations that differ at most in the node-local inputs of a block end *)
 Definition op_sim (o o' : op) : Prop :=
